@@ -34,7 +34,8 @@ REQUIRED_COUNTERS = {"cases_with_insert": {"quick": 3000, "thorough": 50000},
                      "none_yielded_by_frame_iterators": {"quick": 300, "thorough": 3000},
                      "multiplying_cycle_cases": {"quick": 50, "thorough": 500},
                      "frame_iterators_that_are_not_generators": {"quick": 1000, "thorough": 10000},
-                     "elaborate_results_that_are_deques": {"quick": 200, "thorough": 2000}}
+                     "elaborate_results_that_are_deques": {"quick": 200, "thorough": 2000},
+                     "unwrap_results_that_are_lists_the_hook_keeps": {"quick": 200, "thorough": 2000}}
 SHARD_TIMEOUT = {"quick": 400, "thorough": 5400}
 EXHAUSTIVE = {"quick": False, "thorough": False}
 
@@ -290,6 +291,11 @@ def worker(spec):
         if s == "tuple":
             return tuple(w.kids)
         if s == "list":
+            if counter["unwraps"] % 2:
+                # the hook hands out a list it goes on holding (`return job.stack`): it is the hook's, not the library's
+                HELD.append((w, list(w.kids)))
+                res.count("unwrap_results_that_are_lists_the_hook_keeps")
+                return w.kids
             return list(w.kids)
         if s == "single":
             return w.kids[0] if w.kids else ()
@@ -314,6 +320,7 @@ def worker(spec):
         raise AssertionError(s)
 
     ACT = {}
+    HELD = []
     SINGLE = {"v": False}
     DEQUE = {"v": False}
     EMPTY = {"v": ()}
@@ -373,6 +380,12 @@ def worker(spec):
         except Exception as ex:
             res.violation(kind="extract raised", error=repr(ex), case=desc, interp=interp)
             return
+        for w, snapshot in HELD:
+            if len(w.kids) != len(snapshot) or any(a is not b for a, b in zip(w.kids, snapshot)):
+                res.violation(kind="a list returned by an unwrap hook was modified by the extraction", case=desc,
+                              before=[rep(x) for x in snapshot], after=[rep(x) for x in w.kids], interp=interp)
+                w.kids[:] = snapshot
+        del HELD[:]
         got_frames = [f.pyframe for f in s.frames]
         ok_any = False
         for reading in ("A", "B"):
